@@ -42,6 +42,25 @@ def fault_cases(ck, count):
         cid = "g%d" % i
         lines.append("%s encf %d %d %d %s %s %s %d" % (cid, r.randrange(5), r.randrange(3), T, rnd_key(r).hex(), rnd_seed(r).hex(), wv_.hexs(rnd_bytes(r, n)), fa))
         meta[cid] = "read-error/encrypt/at-%s" % ("0" if fa == 0 else "chunk-boundary" if fa % CH == 0 else "inside-chunk")
+    # the OUTPUT stops taking data (ENOSPC) after w bytes: in the header, on / inside a chunk, in the last chunk, at the tag
+    NOFAIL = 1 << 60
+    for i, (T, key, n) in enumerate(pre):
+        head, _ = split_impl(enc.get("p%d" % i, ""))
+        if not head.startswith("OK "):
+            continue
+        f = head.split()[1]
+        for w in sorted(set([0, 1, CH - 1, CH, CH + 1, 2 * CH, max(0, n - 20), n])):
+            cid = "wd%d_%d" % (i, w)
+            lines.append("%s decf %d %s %s %d %d" % (cid, T, key.hex(), f, NOFAIL, w))
+            meta[cid] = "write-error/decrypt"
+    for i in range(count // 2):
+        T = r.choice([1, 2, 3, 4, 16])
+        n = r.choice([0, 10, CH, CH + 5, 3 * CH, 4 * CH + 9, 7 * CH + 1])
+        body0 = 48 + 20 * T
+        w = r.choice([0, 10, 48, body0 - 1, body0, body0 + CH - 1, body0 + CH, body0 + CH + 1, body0 + 2 * CH, body0 + n, body0 + n + 16])
+        cid = "we%d" % i
+        lines.append("%s encf %d %d %d %s %s %s %d %d" % (cid, r.randrange(5), r.randrange(3), T, rnd_key(r).hex(), rnd_seed(r).hex(), wv_.hexs(rnd_bytes(r, n)), NOFAIL, w))
+        meta[cid] = "write-error/encrypt"
     res = wv_.run_lines([exe], lines, env=dict(env, WV_TIMEOUT_MS="8000"))
     dist = ck.cov.setdefault("case_classes", {})
     for l in lines:
@@ -50,7 +69,7 @@ def fault_cases(ck, count):
         ck.cov["evaluations"] += 1
         dist[meta[cid]] = dist.get(meta[cid], 0) + 1
         if not got.startswith("RETURNED"):
-            ck.violation("the operation did not return when reads of its input started failing (%s): %s" % (meta[cid], got[:40]),
+            ck.violation("the operation did not return when reads of its input / writes to its output started failing (%s): %s" % (meta[cid], got[:40]),
                          {"class": None, "case": l[:4000], "case_class": meta[cid], "implementation": got[:300], "driver_flags": ck.impl_flags,
                           "replay": "feed the line to harness/drv.cpp built against /repo (encf/decf: last field = number of bytes delivered before reads fail with EIO)"})
 
